@@ -5,6 +5,10 @@
 (* variants.                                                                             *)
 EXTENDS Trivia, Json, IOUtils
 Mode == IF "MODE" \in DOMAIN IOEnv THEN IOEnv.MODE ELSE "single"
+\* STRIDE / OFFSET (environment): only the placements whose index is OFFSET modulo STRIDE are rendered (quick tier: the pair
+\* modes are sampled here, before rendering, instead of being enumerated and thrown away)
+Stride == IF "STRIDE" \in DOMAIN IOEnv THEN atoi(IOEnv.STRIDE) ELSE 1
+Offset == IF "OFFSET" \in DOMAIN IOEnv THEN atoi(IOEnv.OFFSET) ELSE 0
 VARIABLES tp, g, k1, k2
 vars == <<tp, g, k1, k2>>
 Toks == Templates[tp]
@@ -15,6 +19,7 @@ Init ==
   /\ k2 \in (IF Mode \in {"same", "adjacent"} THEN 1..NKinds ELSE IF Mode = "eof" THEN 1..Len(EofKinds) ELSE {0})
   /\ (Mode = "adjacent" => g < Len(Templates[tp]))
   /\ (Mode = "eof" => g = Len(Templates[tp]) /\ k1 = 1)
+  /\ (tp * 7919 + g * 104729 + k1 * 1299709 + k2 * 15485863) % Stride = Offset % Stride
 Next == UNCHANGED vars
 \* two trivia in one gap: a line comment must stay terminated, so the pair is simply concatenated (k1 ends with \n when it is a line comment)
 Text ==
@@ -23,5 +28,12 @@ Text ==
   ELSE IF Mode = "same" THEN Rendered(Toks, Place(Toks, base, g, Kinds[k1] \o Kinds[k2]))
   ELSE IF Mode = "adjacent" THEN Rendered(Toks, Place(Toks, Place(Toks, base, g, Kinds[k1]), g + 1, Kinds[k2]))
   ELSE Rendered(Toks, [base EXCEPT ![Len(Toks)] = EofKinds[k2]])
-Emit == PrintT("CASE " \o ToJson([tpl |-> tp, gap |-> g, k1 |-> k1, k2 |-> k2, mode |-> Mode, src |-> Text]))
+Gaps ==
+  LET base == BaseGap(Toks) IN
+  IF Mode = "single" THEN Place(Toks, base, g, Kinds[k1])
+  ELSE IF Mode = "same" THEN Place(Toks, base, g, Kinds[k1] \o Kinds[k2])
+  ELSE IF Mode = "adjacent" THEN Place(Toks, Place(Toks, base, g, Kinds[k1]), g + 1, Kinds[k2])
+  ELSE [base EXCEPT ![Len(Toks)] = EofKinds[k2]]
+\* tspans: byte ranges (1-based, inclusive) of the type regions of the rendered text (empty for the untyped templates)
+Emit == PrintT("CASE " \o ToJson([tpl |-> tp, gap |-> g, k1 |-> k1, k2 |-> k2, mode |-> Mode, src |-> Text, tspans |-> ByteSpans(tp, Toks, Gaps)]))
 =============================================================================
